@@ -131,6 +131,14 @@ func (c *compiler) compile(o interface{}) error {
 		}
 	}
 	if x, ok := o.(HasType); ok {
+		if tdef, isTypedef := o.(*Typedef); isTypedef {
+			// also when the typedef is not reached through a type that names it: a member of its
+			// union (or its own type) that leads back to it is a typedef defined in terms of itself
+			if _, marked := c.typedefsInProgress[tdef]; !marked {
+				c.typedefsInProgress[tdef] = struct{}{}
+				defer delete(c.typedefsInProgress, tdef)
+			}
+		}
 		if err := c.compileType(x.Type(), x.(Leafable), false); err != nil {
 			return err
 		}
